@@ -185,7 +185,7 @@ class Gen:
         ]
         if self.p.on("float_minmaxabs"):
             opts += [lambda: self.macro(lambda: f"abs({sub()})"), lambda: self.macro(lambda: f"max({sub()}, {sub()})"),
-                     lambda: self.macro(lambda: f"min({sub()}, {self.e_int(depth - 1)})")]
+                     lambda: self.macro(lambda: f"min({sub()}, {sub()})")]
         if self.p.on("int_truediv"):
             opts.append(lambda: f"({self.e_int(depth - 1)} / {self.int_lit(1, 9)})")
         hs = [h for h in self.helpers if h[2] == "float" and h[0] != self.in_func]
